@@ -555,6 +555,15 @@ def _sort(a, axis=-1, kind=None, order=None, **kw):
     return wrap(a[argsort_fork(list(a), demonic_ties=(core.ctx().argsort_mode == 'fork-ties'))])
 
 
+@implements(np.partition)
+def _partition(a, kth, axis=-1, kind="introselect", order=None):
+    # any array with the kth element in sorted position is a valid partition; the fully sorted one is returned
+    a = _objarr(a)
+    if a.ndim != 1:
+        raise RealisationError("partition of a non 1-D symbolic array")
+    return wrap(a[argsort_fork(list(a), demonic_ties=(core.ctx().argsort_mode == 'fork-ties'))])
+
+
 @implements(np.isclose)
 def _isclose(a, b, rtol=1e-05, atol=1e-08, equal_nan=False):
     def f(x, y):
